@@ -25,8 +25,9 @@ ASSUMPTIONS = ['artist data under the Agg backend is inspected, not pixels', 'x-
 WORDS_Q = ['aadaaazzaa', 'bbnbbdabbb', 'aaeaadnaab', 'dadaaaabnz', 'wwawwdwwaw']      # the last: saw-tooth cycles whose decay flank is ONE sample long (a zero-crossing on an extremum sample)
 TABCFG = [('peak', 'cycles', 64), ('trough', 'cycles', 64), ('peak', 'cycles', 100), ('trough', 'cycles', 100),
           ('peak', 'amp', 64), ('trough', 'amp', 100)]
-THR = dict(S.T0, amp_fraction_threshold=.1)
-THRA = {'burst_fraction_threshold': .5, 'min_n_cycles': 2}
+# thresholds that two decimals cannot represent (as they come out of a grid search): a line drawn at a rounded value shows
+THR = dict(S.T0, amp_fraction_threshold=.125, amp_consistency_threshold=.4375, period_consistency_threshold=.515625, monotonicity_threshold=.609375)
+THRA = {'burst_fraction_threshold': .46875, 'min_n_cycles': 2}
 _CACHE = {}
 
 
